@@ -3,7 +3,6 @@ package sx
 import (
 	"fmt"
 	"go/token"
-	"hash/crc32"
 	"sort"
 	"strings"
 
@@ -434,7 +433,7 @@ func (it *Interp) patchCRC(m smt.Model) {
 				bs[i] = byte(smt.Eval(a, m, memo))
 			}
 		}
-		m[v.Name] = uint64(crc32.ChecksumIEEE(bs))
+		it.forgeOrPatch(m, app, v, bs)
 	}
 }
 
